@@ -258,6 +258,18 @@ def _node_of(g, expr):
     return None
 
 
+def _snapshot_callee(call, assigns):
+    """Name(s) of the snapshot provider a call invokes: directly, or through a local bound to snapshot provider methods only
+    (`reconstruct = mdib.reconstruct_mdib_with_context_states if flag else mdib.reconstruct_mdib; reconstruct()`)."""
+    if call_name(call) in SNAPSHOT and isinstance(call.func, ast.Attribute):
+        return call_name(call)
+    if isinstance(call.func, ast.Name):
+        vals = roots(call.func, assigns)
+        if vals and all(isinstance(v, ast.Attribute) and v.attr in SNAPSHOT and is_mdib_alias(v.value) for v in vals):
+            return '/'.join(sorted({v.attr for v in vals}))
+    return None
+
+
 def _version_source_ok(s, g, fi, reads, locked_regions, assigns):
     # direct read of <mdib>.mdib_version_group
     if isinstance(s, ast.Attribute) and s.attr == 'mdib_version_group' and is_mdib_alias(s.value):
@@ -269,10 +281,10 @@ def _version_source_ok(s, g, fi, reads, locked_regions, assigns):
             return False, 'is read in a different mdib_lock region than the content'
         return True, 'is read in the same mdib_lock region as the content'
     # element [1] of a snapshot call result
-    if isinstance(s, ast.Subscript) and isinstance(s.value, ast.Call) and call_name(s.value) in SNAPSHOT:
+    if isinstance(s, ast.Subscript) and isinstance(s.value, ast.Call) and _snapshot_callee(s.value, assigns):
         idx = s.slice.value if isinstance(s.slice, ast.Constant) else None
         if idx == 1:
-            return True, f'is the one returned by the snapshot provider {call_name(s.value)}'
+            return True, f'is the one returned by the snapshot provider {_snapshot_callee(s.value, assigns)}'
         return False, 'is not the version element of the snapshot result'
     if isinstance(s, ast.Name) and s.id in [a.arg for a in fi.node.args.args]:
         return True, 'is a parameter (checked at the caller)'
